@@ -264,13 +264,24 @@ class Parser:
             raise Reject("expected `%s`" % text, tok)
         return self.next()
 
-    def soup(self, close):
+    def soup(self, close, strict=False):
         """balanced token soup up to (and including) the closer that matches an already consumed opener"""
         stack = [close]
+        prev = None
+        # words after which an operand may follow without an operator (expression / statement keywords)
+        PREFIX_WORDS = {"new", "typeof", "return", "if", "else", "const", "let", "var", "instanceof", "in", "of", "as", "throw",
+                        "case", "delete", "void", "await", "yield", "function"}
         while stack:
             tok = self.next()
             if tok[0] == "eof":
                 raise Reject("unclosed `%s`" % {")": "(", "]": "[", "}": "{"}[stack[-1]], tok)
+            operand = tok[0] in ("str", "raw", "num", "id", "bid")
+            if strict and operand and prev is not None and prev[0] in ("str", "raw", "num", "id", "bid") and not (
+                    (prev[0] == "id" and prev[1] in PREFIX_WORDS) or (tok[0] == "id" and tok[1] in PREFIX_WORDS)):
+                # two operands next to each other with no operator between them (e.g. `key === ""created-at""`)
+                raise Reject("two adjacent operands %r %r" % (prev[1], tok[1]), tok)
+            if tok[0] != "nl":
+                prev = tok
             if tok[0] != "p":
                 continue
             if tok[1] in self.OPEN:
@@ -342,11 +353,11 @@ class TS(Parser):
                 else:
                     # the reviver / replacer helpers: an arrow function, kept as balanced soup
                     self.expect("=", "(")
-                    self.soup(")")
+                    self.soup(")", strict=True)
                     self.expect(":")
                     self.type()
                     self.expect("=", ">", "{")
-                    self.soup("}")
+                    self.soup("}", strict=True)
                     self.expect(";")
             else:
                 raise Reject("expected interface / type / enum / const", tok)
